@@ -101,6 +101,8 @@ package gobl
 //@   assume-frame head.WithHead |
 //@   at-call Object).Clone assert [source] $arg0 == old(e.Document)
 //@   at-call Object).Correct assert [clone] fresh($arg0) && $arg0 != old(e.Document)
+//@   at-call Object).Correct assert [head] old(e.Head != nil && len(e.Head.Stamps) > 0) ==> len($arg1) == old(len(opts)) + 1
+//@   at-call Object).Correct assert [nohead] !old(e.Head != nil && len(e.Head.Stamps) > 0) ==> len($arg1) == old(len(opts))
 //@   at-call Envelop assert [built] typeis($arg0, *schema.Object) && unboxed($arg0, *schema.Object) == nd && fresh(nd)
 //@   ensures [new] err == nil ==> r != nil && fresh(r) && r != e
 //@   ensures [refused] err != nil ==> r == nil
